@@ -71,6 +71,18 @@ pub fn run(tier: Tier) -> i32 {
         if !(mean.abs() <= 4.0 / (n as f64).sqrt()) || !((var - 1.0).abs() <= 0.03) {
             rep.violation("noise-stats", format!("unvoiced excitation over {} samples has mean {} variance {} (want 0 / 1)", n, mean, var), json!({"frames": 1, "fperiod": n, "lf0": "nodata"}));
         }
+        // "white": no correlation between samples 1..8 apart (normalised autocorrelation within 5/sqrt(N))
+        let mut worst_rho = 0.0f64;
+        for lag in 1..=8usize {
+            let rho = (0..n - lag).map(|i| (e[i] - mean) * (e[i + lag] - mean)).sum::<f64>() / ((n - lag) as f64 * var);
+            worst_rho = worst_rho.max(rho.abs());
+            rep.cmp(1);
+            if !(rho.abs() <= 5.0 / (n as f64).sqrt()) {
+                rep.violation("noise-white", format!("unvoiced excitation over {} samples is correlated at lag {} (rho {})", n, lag, rho), json!({"frames": 1, "fperiod": n, "lf0": "nodata", "lag": lag}));
+                break;
+            }
+        }
+        rep.note(&format!("noise_worst_autocorrelation_{}", n), json!(worst_rho));
     }
     rep.par_for(cells.len() * 64, 1, "C07 part 1", |job| {
         let (rate, fp) = cells[job / 64];
@@ -104,6 +116,7 @@ pub fn run(tier: Tier) -> i32 {
                     continue;
                 }
             };
+            rep.outcome(hash_f64s(&p[..p.len().min(4 * fp)]) ^ hash_f64s(&p[p.len() - fp..]));
             // (i)-(iv) on the no-LPF run
             let mut k = 0usize;
             let mut last_pulse: Option<usize> = None;
